@@ -255,6 +255,20 @@ def r4_cstr(ctx, P):
                 wp = strip_casts(b.prov_operand(wr[0][1]["args"][0], wr[0][0]))
                 wv = b.prov_operand(wr[0][1]["args"][1], wr[0][0])
                 ok2 = ok2 and wp[0] == "call" and wp[1].split("::")[-1] == "add" and is_len(wp[2][1]) and wv[0] == "int" and wv[1] == 0
+            # no further way to build the C string: every from_bytes_with_nul_unchecked sits in the Some arm of position(),
+            # every other return path goes through the None arm's single write of 0
+            fb = [(s_, t_) for s_, t_ in b.calls() if t_["f"].get("name") == "from_bytes_with_nul_unchecked"]
+            def from_input(s_, t_):
+                a = b.prov_operand(t_["args"][0], s_)
+                fresh = expr_mentions(a, lambda x: x[0] == "call" and x[1].split("::")[-1] in ("allocate_slice", "try_allocate_slice"))
+                return not fresh
+            stray = [s_ for s_, t_ in fb if from_input(s_, t_) and not b.controlled_by(s_, some, cleanup=False)]
+            if stray:
+                ok = False
+            ctx.inst(R, b.path, not stray, "every CStr view of the input is taken in the arm where position() found the first NUL" if not stray else
+                     "a CStr is built from the input outside the `position() == Some(first NUL)` arm (e.g. a 'already NUL-terminated' fast "
+                     "path): an input with an interior NUL is copied past its first NUL", where=b.where(stray[0]) if stray else b.where(),
+                     site="cstr view only at the first NUL")
             ctx.inst(R, b.path, ok and ok2, "NUL present: copies ..nul+1; no NUL: allocates len+1, copies len bytes, writes one 0 at offset len"
                      if ok and ok2 else "the C string is not terminated at the first NUL / by exactly one appended NUL", where=b.where(), site="cstr from str")
     ctx.floor(R, "C-string constructors", n, 3 if "nodefault" in (ctx.config or "") else 4)
@@ -363,5 +377,7 @@ def run(ctx, progs):
         r4_cstr(ctx, P)
         r6_decoder_siblings(ctx, P)
         r7_split_off_checks_both_ends(ctx, P)
+        from . import c16
+        c16.r4_rotation_siblings(ctx, P, "C09.R8")
         stale.rule(ctx, P, "C09.R5", ("bump_string::BumpString<", "mut_bump_string::MutBumpString<"), 6, 8)
     ctx.config = None
